@@ -4,11 +4,13 @@ import (
 	"fmt"
 	"sort"
 	"strings"
+	"sync"
 	"sync/atomic"
 	"time"
 
 	"github.com/olive-io/bpmn/schema"
 	"github.com/olive-io/bpmn/v2/pkg/event"
+	"github.com/olive-io/bpmn/v2/pkg/tracing"
 
 	"verifharness/internal/eng"
 	"verifharness/internal/rec"
@@ -40,6 +42,8 @@ type c11ev struct{ kind, name string }
 type c11shape struct {
 	name  string
 	ebg   bool // catch events behind an event-based gateway (judged by the property predicate only, see the driver)
+	arm   int  // > 0: burst scripts for this shape; the number of answers that arm its listener(s)
+	refire bool // the same catch event fires three times and more
 	par   bool // two tasks can be pending at once: scripts also use "answer the second pending task"
 	evs   []c11ev
 	build func(g *eng.Graph) map[string]int
@@ -65,7 +69,7 @@ var (
 )
 
 var c11shapes = []c11shape{
-	{name: "seq1sig", evs: []c11ev{sigA, sigZ, msgA}, build: func(g *eng.Graph) map[string]int {
+	{name: "seq1sig", arm: 1, evs: []c11ev{sigA, sigZ, msgA}, build: func(g *eng.Graph) map[string]int {
 		g.Wrap(g.Seq(c11task(g, "T0"), c11catch(g, "C1", sigA), c11task(g, "T1")))
 		return nil
 	}},
@@ -83,7 +87,7 @@ var c11shapes = []c11shape{
 			c11task(g, "T2"), c11catch(g, "C3", sigA), c11task(g, "T3")))
 		return nil
 	}},
-	{name: "par2", par: true, evs: []c11ev{sigA, msgB, sigZ}, build: func(g *eng.Graph) map[string]int {
+	{name: "par2", par: true, arm: 2, evs: []c11ev{sigA, msgB, sigZ}, build: func(g *eng.Graph) map[string]int {
 		a := g.Seq(c11task(g, "TA"), c11catch(g, "C1", sigA), c11task(g, "UA"))
 		b := g.Seq(c11task(g, "TB"), c11catch(g, "C2", msgB), c11task(g, "UB"))
 		g.Wrap(g.Split("parallelGateway", "parallelGateway", "", []eng.Frag{a, b}, nil, -1))
@@ -132,7 +136,7 @@ var c11shapes = []c11shape{
 		return map[string]int{"v": 1}
 	}},
 	// two tokens meet at ONE catch event (two incoming flows, inbox capacity 5): one event releases both
-	{name: "merge2", par: true, evs: []c11ev{sigA, sigZ}, build: func(g *eng.Graph) map[string]int {
+	{name: "merge2", par: true, arm: 2, evs: []c11ev{sigA, sigZ}, build: func(g *eng.Graph) map[string]int {
 		f := g.Add("parallelGateway", "fork", "")
 		ta := g.Add("task", "TA", "")
 		tb := g.Add("task", "TB", "")
@@ -167,8 +171,30 @@ var c11shapes = []c11shape{
 		g.Wrap(eng.Frag{Entry: t0, Exit: t3})
 		return nil
 	}},
+	// three tokens reach ONE catch event at different times (three incoming flows, inbox capacity 7): the node fires
+	// up to three times; A1..A3 sort before T1 so that "answer the first pending task" arms the next token
+	{name: "merge3", par: true, arm: 3, refire: true, evs: []c11ev{sigA, sigZ}, build: func(g *eng.Graph) map[string]int {
+		f := g.Add("parallelGateway", "fork", "")
+		c := c11catch(g, "C1", sigA).Entry
+		t1 := g.Add("task", "T1", "")
+		for _, id := range []string{"A1", "A2", "A3"} {
+			a := g.Add("task", id, "")
+			g.Connect(f, a, nil)
+			g.Connect(a, c, nil)
+		}
+		g.Connect(c, t1, nil)
+		g.Wrap(eng.Frag{Entry: f, Exit: t1})
+		return nil
+	}},
+	// a catch event inside a loop: one token comes back to it four times (L writes the round number)
+	{name: "loop4", arm: 1, refire: true, evs: []c11ev{sigA, sigZ}, build: func(g *eng.Graph) map[string]int {
+		body := g.Seq(c11catch(g, "C1", sigA), g.Task("task", "L", "", "c1"))
+		loop := g.Loop("", body, &eng.Cond{Op: "lt", Var: "c1", K: 4})
+		g.Wrap(g.Seq(c11task(g, "A0"), loop, c11task(g, "T9")))
+		return map[string]int{"c1": 0}
+	}},
 	// plain multiple catch event: either definition fires it
-	{name: "multi", evs: []c11ev{sigA, msgB, sigZ}, build: func(g *eng.Graph) map[string]int {
+	{name: "multi", arm: 1, evs: []c11ev{sigA, msgB, sigZ}, build: func(g *eng.Graph) map[string]int {
 		g.Wrap(g.Seq(c11task(g, "T0"), c11catch(g, "C1", sigA, msgB), c11task(g, "T1")))
 		return nil
 	}},
@@ -176,8 +202,11 @@ var c11shapes = []c11shape{
 
 // one step of the driver script
 type c11step struct {
-	op byte // 'd' deliver evs[arg] | 'a' answer the arg-th pending task (by name) | 's' start the instance
+	op byte // 'd' deliver evs[arg] | 'a' answer the arg-th pending task (by name) | 's' start the instance | 'b' burst
 	arg int
+	// burst: these events are handed in back to back, without waiting in between, from g goroutines (event i by goroutine i%g)
+	burst []int
+	g     int
 }
 
 type c11case struct {
@@ -185,6 +214,7 @@ type c11case struct {
 	steps  []c11step
 	random int // > 0: draw `random` steps from the case rng instead
 	tag    string
+	slow   bool // an extra trace subscriber that takes its time over every trace (back-pressure on every node loop)
 }
 
 func c11word(letters []c11step, n int, f func([]c11step)) {
@@ -204,11 +234,11 @@ func c11word(letters []c11step, n int, f func([]c11step)) {
 func c11letters(s c11shape) []c11step {
 	var ls []c11step
 	for i := range s.evs {
-		ls = append(ls, c11step{'d', i})
+		ls = append(ls, c11step{op: 'd', arg: i})
 	}
-	ls = append(ls, c11step{'a', 0})
+	ls = append(ls, c11step{op: 'a', arg: 0})
 	if s.par {
-		ls = append(ls, c11step{'a', 1})
+		ls = append(ls, c11step{op: 'a', arg: 1})
 	}
 	return ls
 }
@@ -274,9 +304,9 @@ func c11cases(tier string) []c11case {
 			})
 		}
 		// 2. inbox-filling scripts: k deliveries of one event before anything is armed, arm, deliver again
-		a0 := c11step{'a', 0}
+		a0 := c11step{op: 'a', arg: 0}
 		for e := range s.evs {
-			d := c11step{'d', e}
+			d := c11step{op: 'd', arg: e}
 			ks := []int{4}
 			if thorough {
 				ks = []int{4, 5, 6, 7, 8}
@@ -286,17 +316,69 @@ func c11cases(tier string) []c11case {
 			for _, k := range ks {
 				cs = append(cs, c11case{shape: si, steps: rep(d, k), tag: "fill"})
 				if k <= 6 && (thorough || e == 0) {
-					cs = append(cs, c11case{shape: si, steps: cat(rep(d, k), []c11step{a0, {'d', 0}, a0, a0}), tag: "fill-arm"})
+					cs = append(cs, c11case{shape: si, steps: cat(rep(d, k), []c11step{a0, {op: 'd', arg: 0}, a0, a0}), tag: "fill-arm"})
 				}
 			}
 		}
 		// 2b. event-based gateway: one alternative wins, then events for the losing one keep coming
 		if s.ebg {
-			a0 := c11step{'a', 0}
+			a0 := c11step{op: 'a', arg: 0}
 			for _, wl := range [][2]int{{0, 1}, {1, 0}} {
-				win, lose := c11step{'d', wl[0]}, c11step{'d', wl[1]}
+				win, lose := c11step{op: 'd', arg: wl[0]}, c11step{op: 'd', arg: wl[1]}
 				cs = append(cs, c11case{shape: si, steps: cat([]c11step{a0, win}, rep(lose, 6)), tag: "late-loser"})
-				cs = append(cs, c11case{shape: si, steps: cat([]c11step{a0, win, lose}, rep(c11step{'d', 2}, 5), []c11step{a0, a0}), tag: "late-loser"})
+				cs = append(cs, c11case{shape: si, steps: cat([]c11step{a0, win, lose}, rep(c11step{op: 'd', arg: 2}, 5), []c11step{a0, a0}), tag: "late-loser"})
+			}
+		}
+		// 2c. the same node fires again and again (three tokens through one node / one token coming back), with late
+		//     extra deliveries afterwards
+		zi := 0
+		for i, e := range s.evs {
+			if e == sigZ {
+				zi = i
+			}
+		}
+		if s.refire {
+			a0 := c11step{op: 'a', arg: 0}
+			m, z := c11step{op: 'd', arg: 0}, c11step{op: 'd', arg: zi}
+			late := rep(z, 8)
+			cs = append(cs, c11case{shape: si, steps: cat([]c11step{a0, m, a0, m, a0, m}, late), tag: "refire"})
+			cs = append(cs, c11case{shape: si, steps: cat([]c11step{a0, z, m, a0, z, m, a0, z, m, m}, late, []c11step{a0, m, a0, m}), tag: "refire"})
+			cs = append(cs, c11case{shape: si, steps: cat([]c11step{a0, m, a0, m, a0, m, a0, m, a0, m}, late), tag: "refire"})
+			cs = append(cs, c11case{shape: si, steps: cat([]c11step{a0, a0, m, a0, m, a0, m, m}, late), tag: "refire"})
+		}
+		// 2d. bursts: the listener is armed, then 5..10 events are handed in back to back without waiting, the
+		//     matching one last or in the middle, from one or two goroutines, with and without a slow trace subscriber
+		if s.arm > 0 {
+			a0 := c11step{op: 'a', arg: 0}
+			ns := []int{8}
+			if thorough {
+				ns = []int{5, 6, 8, 10}
+			}
+			for _, n := range ns {
+				for pat := 0; pat < 2; pat++ {
+					var b []int
+					for i := 0; i < n; i++ {
+						b = append(b, zi)
+					}
+					if pat == 0 {
+						b[n-1] = 0
+					} else {
+						b[n/2] = 0
+					}
+					for g := 1; g <= 2; g++ {
+						for _, slow := range []bool{false, true} {
+							steps := cat(rep(a0, s.arm), []c11step{{op: 'b', burst: b, g: g}, {op: 'd', arg: 0}})
+							cs = append(cs, c11case{shape: si, steps: steps, tag: "burst", slow: slow})
+						}
+					}
+				}
+			}
+			if s.refire {
+				// a burst in every round
+				b := []int{zi, zi, zi, zi, zi, zi, 0}
+				round := []c11step{a0, {op: 'b', burst: b, g: 2}}
+				cs = append(cs, c11case{shape: si, steps: cat(round, round, round, round), tag: "burst", slow: true})
+				cs = append(cs, c11case{shape: si, steps: cat(round, round, round, round), tag: "burst"})
 			}
 		}
 		// 3. deliveries before the instance is started (the start event's reader is not running either)
@@ -304,7 +386,7 @@ func c11cases(tier string) []c11case {
 			if k == 3 && !thorough {
 				continue
 			}
-			cs = append(cs, c11case{shape: si, steps: cat(rep(c11step{'d', 0}, k), []c11step{{'s', 0}, a0, {'d', 0}, a0}), tag: "prestart"})
+			cs = append(cs, c11case{shape: si, steps: cat(rep(c11step{op: 'd', arg: 0}, k), []c11step{{op: 's', arg: 0}, a0, {op: 'd', arg: 0}, a0}), tag: "prestart"})
 		}
 		// 4. seeded longer scripts (5..8 deliveries, arming in between)
 		nr := 4
@@ -329,12 +411,12 @@ func c11random(s c11shape, nd int, rng *rec.Rng) []c11step {
 			if rng.Intn(3) == 0 {
 				e = 0
 			}
-			w = append(w, c11step{'d', e})
+			w = append(w, c11step{op: 'd', arg: e})
 			delivered++
 		case r < 9 || !s.par:
-			w = append(w, c11step{'a', 0})
+			w = append(w, c11step{op: 'a', arg: 0})
 		default:
-			w = append(w, c11step{'a', 1})
+			w = append(w, c11step{op: 'a', arg: 1})
 		}
 	}
 	return w
@@ -353,6 +435,12 @@ func c11script(s c11shape, w []c11step) string {
 			parts[i] = fmt.Sprintf("a%d", st.arg)
 		case 's':
 			parts[i] = "start"
+		case 'b':
+			es := make([]string, len(st.burst))
+			for k, e := range st.burst {
+				es[k] = s.evs[e].kind[:1] + s.evs[e].name
+			}
+			parts[i] = fmt.Sprintf("b%d:%s", st.g, strings.Join(es, "+"))
 		}
 	}
 	return strings.Join(parts, ",")
@@ -439,6 +527,64 @@ func c11deliver(in *eng.Inst, e c11ev, d time.Duration, stats map[string]int) bo
 	return ret
 }
 
+// c11burst hands the events to the instance back to back, without waiting for anything in between, from g goroutines
+// (event i by goroutine i%g, each goroutine in order). One `op burst` line, one `obs ret deliver burst …` line: returned
+// iff every call returned (re-examined at quiescence like a single delivery).
+func c11burst(in *eng.Inst, evs []c11ev, g int, stats map[string]int) bool {
+	names := make([]string, len(evs))
+	mk := make([]event.IEvent, len(evs))
+	for i, e := range evs {
+		names[i] = e.kind + ":" + e.name
+		if e.kind == "message" {
+			mk[i] = event.NewMessageEvent(e.name, nil)
+		} else {
+			mk[i] = event.NewSignalEvent(e.name)
+		}
+	}
+	in.Op("burst %d %s", g, strings.Join(names, ","))
+	var wg sync.WaitGroup
+	var panicked atomic.Value
+	for k := 0; k < g; k++ {
+		wg.Add(1)
+		go func(k int) {
+			defer wg.Done()
+			defer func() {
+				if r := recover(); r != nil {
+					panicked.Store(fmt.Sprint(r))
+				}
+			}()
+			for i := k; i < len(mk); i += g {
+				in.Proc.ConsumeEvent(mk[i])
+			}
+		}(k)
+	}
+	done := make(chan struct{})
+	go func() { wg.Wait(); close(done) }()
+	ret := false
+	select {
+	case <-done:
+		ret = true
+	case <-time.After(c11deadline + time.Duration(len(evs))*100*timeMillisecond):
+		in.Quiesce(4 * timeSecond)
+		select {
+		case <-done:
+			ret = true
+			stats["slow_delivery_returned_after_deadline"]++
+		default:
+		}
+	}
+	if p := panicked.Load(); p != nil {
+		in.Note("obs panic %s", strings.ReplaceAll(p.(string), "\n", " "))
+	}
+	stats[fmt.Sprintf("burst_len_%d_g%d", len(evs), g)]++
+	if ret {
+		in.Note("obs ret deliver burst returned")
+	} else {
+		in.Note("obs ret deliver burst blocked")
+	}
+	return ret
+}
+
 func c11run(out *rec.Out, c c11case, rng *rec.Rng, stats map[string]int) {
 	s := c11shapes[c.shape]
 	steps := c.steps
@@ -447,7 +593,7 @@ func c11run(out *rec.Out, c c11case, rng *rec.Rng, stats map[string]int) {
 	}
 	g := eng.NewGraph()
 	vars := s.build(g)
-	out.Begin("c11", s.name, c.tag, c11script(s, steps))
+	out.Begin("c11", s.name, c.tag, c11script(s, steps), fmt.Sprintf("slow=%d", rec.B(c.slow)))
 	defer out.End()
 	anyVars := map[string]any{}
 	for k, v := range vars {
@@ -506,6 +652,38 @@ func c11run(out *rec.Out, c c11case, rng *rec.Rng, stats map[string]int) {
 		sort.SliceStable(p, func(i, j int) bool { return p[i].Node < p[j].Node })
 		return p
 	}
+	// the task L of the loop shape writes the number of the round it closes
+	answer := func(q *eng.Req) {
+		if q.Node == "L" {
+			in.AnswerOK(q, map[string]int{"c1": q.Occ})
+		} else {
+			in.AnswerOK(q, nil)
+		}
+	}
+	slowStop := make(chan struct{})
+	if c.slow {
+		// a subscriber with a one-slot channel that takes 1 ms over every trace: the tracer's broadcast waits for it,
+		// so every node loop that sends a trace does, while the burst keeps coming
+		ch := in.Proc.Tracer().SubscribeChannel(make(chan tracing.ITrace, 1))
+		go func() {
+			for {
+				select {
+				case _, open := <-ch:
+					if !open {
+						return
+					}
+					// time.Sleep, not a timer channel: a sleeping goroutine counts as "can still run" for the
+					// quiescence detection, a goroutine waiting on a timer channel would not
+					time.Sleep(time.Millisecond)
+				case <-slowStop:
+					// keep draining so that the tracer never waits for us after the case
+					for range ch {
+					}
+					return
+				}
+			}
+		}()
+	}
 	ok := true
 	hasStart := false
 	for _, st := range steps {
@@ -535,13 +713,21 @@ func c11run(out *rec.Out, c c11case, rng *rec.Rng, stats map[string]int) {
 			if !c11deliver(in, e, c11deadline, stats) {
 				blocked++
 			}
+		case 'b':
+			var evs []c11ev
+			for _, e := range st.burst {
+				evs = append(evs, s.evs[e])
+			}
+			if !c11burst(in, evs, st.g, stats) {
+				blocked++
+			}
 		case 'a':
 			if !started {
 				continue
 			}
 			p := pendingByName()
 			if st.arg < len(p) {
-				in.AnswerOK(p[st.arg], nil)
+				answer(p[st.arg])
 			}
 		}
 	}
@@ -554,9 +740,10 @@ func c11run(out *rec.Out, c c11case, rng *rec.Rng, stats map[string]int) {
 		if len(p) == 0 {
 			break
 		}
-		in.AnswerOK(p[0], nil)
+		answer(p[0])
 	}
 	in.Quiesce(2 * timeSecond)
+	close(slowStop)
 	if blocked > 0 {
 		stats["cases_with_blocked_delivery"]++
 	}
